@@ -708,7 +708,8 @@ class Cooperator:
         iterators which have been added and forget about them.
         """
         self._stopped = True
-        for taskObj in self._tasks:
+        # Iterate over a copy: _completeWith removes each task from self._tasks.
+        for taskObj in list(self._tasks):
             taskObj._completeWith(SchedulerStopped(), Failure(SchedulerStopped()))
         self._tasks = []
         if self._delayedCall is not None:
